@@ -713,6 +713,99 @@ func inplace(g *valgen.GT) bool {
 	return g.Name == "array" || g.Name == "struct" || g.Name == "ustruct"
 }
 
+// cqlKnown: Unmarshal's switch has a case for the type and for every type under it (C04Reuse: `cqlOf t ≠ none`)
+func cqlKnown(t *typeDesc) bool {
+	t = asNative(t)
+	switch t.kind {
+	case 'n':
+		return t.id >= 1 && t.id <= 0x15
+	case 'c':
+		return false
+	}
+	for _, s := range t.sub {
+		if !cqlKnown(s) {
+			return false
+		}
+	}
+	return true
+}
+
+// compositeSensitive mirrors C04Reuse.sensitive on `*[n]T` / struct destinations (the excluded condition of the
+// `C04_rows_independent…_partial` theorems): false exactly when the theorems say the value left in the destination
+// does not depend on what it held —
+//   - list / set into [n]T: the element type T never looks at the element it replaces (not an unnamed []byte of a
+//     text-family element type, not [n]T / a struct);
+//   - UDT into a struct: the value is null / empty (the struct is reset), or the value's fields write EVERY field of
+//     the struct and no written field is an empty text-family value into an unnamed []byte / a nested [n]T / struct.
+func compositeSensitive(s slot, it optBytes) bool {
+	if !cqlKnown(s.t) {
+		return true
+	}
+	t := s.t
+	switch s.g.Name {
+	case "array":
+		if t.kind != 'l' && t.kind != 's' {
+			return true
+		}
+		e := s.g.Elems[0]
+		if inplace(e) {
+			return true
+		}
+		et := asNative(t.sub[0])
+		return e.Name == "bytes" && et.kind == 'n' && isTextID(et.id)
+	case "struct", "ustruct":
+		if t.kind != 'u' {
+			return true
+		}
+		if it.null || len(it.b) == 0 {
+			return false
+		}
+		var names []string
+		if s.g.Name == "ustruct" {
+			names = s.g.Names
+		}
+		written := make([]bool, len(s.g.Elems))
+		data := it.b
+		for i := range t.sub {
+			if len(data) < 4 {
+				break
+			}
+			n := int(int32(uint32(data[0])<<24 | uint32(data[1])<<16 | uint32(data[2])<<8 | uint32(data[3])))
+			data = data[4:]
+			item := optBytes{null: true}
+			if n >= 0 {
+				if len(data) < n {
+					break
+				}
+				item = optBytes{b: data[:n]}
+				data = data[n:]
+			}
+			idx := -1
+			for k, nm := range names {
+				if nm == string(t.fnames[i]) {
+					idx = k
+					break
+				}
+			}
+			if idx < 0 || idx >= len(s.g.Elems) {
+				continue
+			}
+			f := s.g.Elems[idx]
+			if inplace(f) || sensitive(slot{t.sub[i], f}, item) {
+				return true
+			}
+			written[idx] = true
+		}
+		for _, w := range written {
+			if !w {
+				return true
+			}
+		}
+		return false
+	}
+	return true
+}
+
 func reuseClass(api, init string, slots []slot, cols []colSpec, rows [][]cell) (op, class string) {
 	for _, row := range rows {
 		for i, c := range cols {
@@ -721,16 +814,24 @@ func reuseClass(api, init string, slots []slot, cols []colSpec, rows [][]cell) (
 			}
 		}
 	}
+	comp := false
 	for _, s := range slots {
 		if inplace(s.g) {
-			return "reusex", "reuse/" + api + "/inplace-composite"
+			comp = true
+		}
+	}
+	for _, row := range rows {
+		for j, it := range rowItems(cols, row) {
+			if inplace(slots[j].g) && compositeSensitive(slots[j], it) {
+				return "reusex", "reuse/" + api + "/inplace-composite"
+			}
 		}
 	}
 	nav := false // a null after a value in some destination
 	last := make([]bool, len(slots))
 	for _, row := range rows {
 		for j, it := range rowItems(cols, row) {
-			if sensitive(slots[j], it) {
+			if !inplace(slots[j].g) && sensitive(slots[j], it) {
 				return "reusex", "KF-C04-6/empty-cell-into-reused-bytes"
 			}
 			if it.null && last[j] {
@@ -740,6 +841,9 @@ func reuseClass(api, init string, slots []slot, cols []colSpec, rows [][]cell) (
 		}
 	}
 	class = "reuse/" + api + "/" + init
+	if comp {
+		class += "/composite-all-parts-written"
+	}
 	if nav {
 		class += "/null-after-value"
 	}
